@@ -1,4 +1,5 @@
 import SigModel.Model.Crash
+import SigModel.Model.CrashMeta
 import Oracle.Util
 /- suite "crash" (C07):
    crash H <history…> X <m>      history ::= ev/<vid>/<ts>/<fields> | send | fl | ro   (tokens of the e2e suites;
@@ -6,10 +7,20 @@ import Oracle.Util
                                  m = number of MODEL steps (SigModel.Crash.steps, one column group `ws = [0]` per
                                  flush) that completed before the process died
      → vis=<vids> cnt=<n> flt=<vids> rng=<vids> sum=<vids> post=<vids>+N pcnt=<n> next=<suffix>
+       sfm=<seg>:<earliest>-<latest>:<recordCount>:<col+col…>;…   sm=<seg>:<earliest>-<latest>:<recordCount>;…
+       tw=<vids>|<vids>|…   tc=<n>,<n>,…   col=<name>:<vids>;…   alt=<vids>
        vis/flt/rng: events returned by `*`, by the bloom-filtered and by the range-filtered search after restart;
        cnt: `* | stats count`; sum: the events whose n the answer of `* | stats sum(n)` is the sum of;
        post/pcnt: `*` and count after the restarted process ingested and flushed one more event (N);
        next: suffix of the segment directory that event went to
+       sfm: content of the `<seg>.sfm` of every segment directory at the moment of the crash (segment order);
+       sm: the lines of segmeta.json at that moment; tw / tc: per flush i of the HISTORY (all of them, in order)
+       the events returned by `*` resp. the answer of `* | stats count` over the window [min ts, max ts] of the
+       events of flush i, after the restart; col: per column named c<digits> (sorted) the events returned by
+       `<name>=*` over the all-time window (SigModel.Crash.search / countQ of Model/CrashMeta.lean);
+       vis / flt / rng are `search` over the all-time window as well (the record searcher's cut-off applies to them);
+       alt: the events that some search returned without one of their columns (`alteredIn`)
+   crash H <history…> X <m>~<cap>  the same answer (the cap only limits how many crash points of the window the harness runs)
    crash H <history…> X order    → order n=<number of steps> <step kinds in program order>
 -/
 namespace Oracle.C07
@@ -23,18 +34,21 @@ structure PState where
   hist : List Cmd := []         -- reversed
   flushes : List (List Nat) := []   -- reversed: vids of flush 0,1,…
   vids : List Nat := []
+  evs : List Ev := []               -- every event: id = vid, timestamp, column names (with _vid)
 
 def natTok (s : String) : Option Nat :=
   if s.isEmpty || s.toList.any (fun c => !c.isDigit) then none else s.toNat?
 
 /-- `ev/<vid>/<ts>/<fields>` with a field `n~i<2^vid>` -/
-def parseEv (tok : String) : Option Nat :=
+def parseEv (tok : String) : Option Ev :=
   match tok.splitOn "/" with
   | ["ev", v, ts, fields] =>
     match natTok v, natTok ts with
-    | some v, some _ =>
+    | some v, some t =>
       if v ≥ 60 then none
-      else if (fields.splitOn ",").contains ("n~i" ++ toString (2 ^ v)) then some v else none
+      else if (fields.splitOn ",").contains ("n~i" ++ toString (2 ^ v)) then
+        some { id := v, ts := t, cols := "_vid" :: (fields.splitOn ",").map (fun x => (x.splitOn "~").headD "") }
+      else none
     | _, _ => none
   | _ => none
 
@@ -51,7 +65,9 @@ def stepTok (p : PState) (tok : String) : Option PState :=
     let p := doFlush p
     if p.created then some { p with hist := Cmd.ro :: p.hist, w := next p.w .ro } else some p
   else match parseEv tok with
-    | some v => if p.vids.contains v then none else some { p with batch := p.batch ++ [v], vids := v :: p.vids }
+    | some e =>
+      if p.vids.contains e.id then none
+      else some { p with batch := p.batch ++ [e.id], vids := e.id :: p.vids, evs := e :: p.evs }
     | none => none
 
 def showVids (l : List Nat) : String :=
@@ -71,6 +87,24 @@ def kind : Step → String
   | .sfmWrite _ _ => "sfmwrite"
   | .segmetaAppend _ _ => "segmeta"
 
+def sortStrs (l : List String) : List String := l.mergeSort (fun a b => decide (a ≤ b))
+
+def dedup (l : List String) : List String := l.foldl (fun acc x => if acc.contains x then acc else acc ++ [x]) []
+
+/-- `c<digits>` -/
+def isExtraCol (c : String) : Bool :=
+  match c.toList with
+  | 'c' :: d :: ds => (d :: ds).all Char.isDigit
+  | _ => false
+
+def showMeta (s : Nat) (m : SM) (withCols : Bool) : String :=
+  s!"{s}:{m.lo}-{m.hi}:{m.recs}" ++ (if withCols then ":" ++ String.intercalate "+" (sortStrs (dedup m.cols)) else "")
+
+def orDash (l : List String) (sep : String) : String := if l.isEmpty then "-" else String.intercalate sep l
+
+def allLo : Nat := 1700000000000 - 1000
+def allHi : Nat := 1700000000000 + 1000000
+
 def crash (args : List String) : String :=
   match args with
   | "H" :: rest =>
@@ -86,16 +120,40 @@ def crash (args : List String) : String :=
         let vidsOf (fs : List Nat) : List Nat := fs.flatMap (fun f => fl.getD f [])
         if x = "order" then
           s!"order n={ss.length} " ++ String.intercalate " " (ss.map kind)
-        else match natTok x with
+        else match (match x.splitOn "~" with
+              | [a] => natTok a
+              | [a, c] => (natTok c).bind (fun c => if c < 2 then none else natTok a)
+              | _ => none) with
           | none => "bad-op"
           | some m =>
             if m > ss.length then "bad-op" else
             let fs := run {} (ss.take m)
-            let vis := vidsOf (visible fs)
             let cnt := (vidsOf (counted fs)).length
             let sm := vidsOf (statted fs)
             let tornMark := if (torn fs).isEmpty then "" else " torn=" ++ showVids (vidsOf (torn fs))
-            s!"vis={showVids vis} cnt={cnt} flt={showVids vis} rng={showVids vis} sum={showVids sm} post={showVids vis}+N pcnt={cnt + 1} next={nextSuffix fs}{tornMark}"
+            -- the metadata layer (Model/CrashMeta.lean)
+            let evs : Evs := fun f => (fl.getD f []).filterMap (fun v => p.evs.find? (fun e => e.id == v))
+            let dirs := fs.dirs.mergeSort (fun a b => decide (a ≤ b))
+            let sfms := dirs.filterMap (fun s => match (fs.seg s).sfm with
+              | .json b => some (showMeta s (metaOf evs b) true)
+              | .empty => some s!"{s}:unparsable"
+              | .absent => none)
+            let sms := fs.segmeta.map (fun q => showMeta q.1 (metaOf evs q.2) false)
+            let wins := (List.range fl.length).map (fun f =>
+              let ts := (evs f).map (·.ts)
+              ({ lo := ts.foldl min (ts.headD 0), hi := ts.foldl max 0 } : Query))
+            let allQ : Query := { lo := allLo, hi := allHi }
+            let visE := search evs fs allQ
+            let vis := visE.map (·.id)
+            let twE := wins.map (fun q => search evs fs q)
+            let tw := twE.map (fun r => showVids (r.map (·.id)))
+            let tc := wins.map (fun q => toString (countQ evs fs q))
+            let xcols := sortStrs (dedup ((p.evs.flatMap (·.cols)).filter isExtraCol))
+            let clE := xcols.map (fun c => search evs fs { lo := allLo, hi := allHi, col := some c })
+            let cl := (xcols.zip clE).map (fun x => x.1 ++ ":" ++ showVids (x.2.map (·.id)))
+            let alt := alteredIn evs fs (visE ++ twE.flatten ++ clE.flatten)
+            s!"vis={showVids vis} cnt={cnt} flt={showVids vis} rng={showVids vis} sum={showVids sm} post={showVids vis}+N pcnt={cnt + 1} next={nextSuffix fs}{tornMark}" ++
+              s!" sfm={orDash sfms ";"} sm={orDash sms ";"} tw={orDash tw "|"} tc={orDash tc ","} col={orDash cl ";"} alt={showVids alt}"
     | _ => "bad-op"
   | _ => "bad-op"
 
